@@ -69,7 +69,12 @@ func (server *Server) HDel(conn *redis.Conn, key string, fields []string) (*redi
 	if !ok {
 		return redis.NewIntegerMessage(0), nil
 	}
-	return redis.NewIntegerMessage(hash.Del(fields)), nil
+	removedCount := hash.Del(fields)
+	if len(hash) == 0 {
+		// A hash that becomes empty is removed like Redis.
+		db.RemoveRecord(key)
+	}
+	return redis.NewIntegerMessage(removedCount), nil
 }
 
 // nolint: ifshort
